@@ -235,7 +235,7 @@ def run(env, res, pid):
             "bfs_state_cap_per_protocol": cap}
 
 
-def witness_search(env, max_steps=7, max_len=4):
+def witness_search(env, max_steps=7, max_len=4, only=None):
     """goal-directed breadth-first search over simulated kind-level states only (no reference
     lock-step): shortest choice sequence from the empty state to a state enabling each opcode."""
     import rules_pvm
@@ -284,6 +284,10 @@ def witness_search(env, max_steps=7, max_len=4):
                 ls.append(lf)
             leaves[o] = ls
         want = set(ops)
+        if only is not None:
+            want = {o for o in ops if (P, o) in only}
+            if not want:
+                continue
         start = ((), ())
         seen = {start: None}
         frontier = collections.deque([(start, 0)])
